@@ -318,6 +318,34 @@ Example resolve_examples :
   resolve_parts [[97]; [46; 46]] = None /\ resolve_parts [] = None.
 Proof. repeat split; reflexivity. Qed.
 
+(* stem and suffix split the name *)
+Theorem stem_suffix parts : stem parts ++ suffix parts = name parts.
+Proof.
+  unfold stem, suffix. destruct (rindex_dot (name parts) 0 None) as [i|]; [apply firstn_skipn|apply app_nil_r].
+Qed.
+(* with_name replaces exactly the last component *)
+Lemma last_canon_nonempty r : canon_tail r = true -> r <> [] -> last r [] <> [].
+Proof.
+  induction r as [|x r IH]; intros C NE; [congruence|]. cbn [canon_tail forallb] in C. apply andb_true_iff in C as [C1 C2].
+  apply andb_true_iff in C1 as [_ N]. destruct r as [|y r']; [cbn [last]; destruct x; [discriminate|congruence]|].
+  change (last (x :: y :: r') []) with (last (y :: r') []). apply IH; [exact C2|congruence].
+Qed.
+Theorem with_name_last a b r nm : canonical (a :: b :: r) = true -> slash_free nm = true -> nm <> [] ->
+  with_name (a :: b :: r) nm = Some (removelast (a :: b :: r) ++ [nm]) /\
+  name (removelast (a :: b :: r) ++ [nm]) = nm.
+Proof.
+  intros C F N. cbn [canonical] in C. apply andb_true_iff in C as [Ca Ct].
+  assert (NN : name (a :: b :: r) <> []).
+  { unfold name. change (last (a :: b :: r) []) with (last (b :: r) []). apply last_canon_nonempty; [exact Ct|congruence]. }
+  unfold with_name. destruct (name (a :: b :: r)) eqn:E; [congruence|]. destruct nm as [|c nm']; [congruence|]. cbn [is_nil orb].
+  split; [|apply last_app_one]. f_equal. apply get_parts_stable.
+  assert (R : removelast (a :: b :: r) = a :: removelast (b :: r)) by reflexivity. rewrite R. cbn [app canonical]. rewrite Ca.
+  rewrite canon_tail_app. cbn [canon_tail forallb]. rewrite F. cbn [is_nil negb andb]. rewrite andb_true_r.
+  clear -Ct. revert Ct. generalize b. induction r as [|y r IH]; intros b0 Ct; [reflexivity|].
+  cbn [canon_tail forallb] in Ct. apply andb_true_iff in Ct as [C1 C2].
+  change (removelast (b0 :: y :: r)) with (b0 :: removelast (y :: r)). cbn [canon_tail forallb]. rewrite C1. apply IH, C2.
+Qed.
+
 Example path_examples :
   get_parts [[47; 97; 47; 47; 98; 47]] = [[]; [97]; [98]] /\                         (* "/a//b/" *)
   get_parts [[97; 47; 98]; [47; 99]; []] = [[97]; [98]; [99]] /\                    (* "a/b", "/c", "" *)
